@@ -78,6 +78,25 @@ def local_callee_bodies(F, cs, crate=None):
     return out
 
 
+def fn_operand_bodies(F, body, op):
+    """bodies a function-valued operand can stand for: a closure built in `body`, or a named function of the workspace used as a value
+    (`Guard::new(|| ..)` and `Guard::new(clear_it)` are the same thing)"""
+    out = []
+    for o in Prov(body).operand(op):
+        if o[0] == "agg" and isinstance(o[1], str) and "{closure" in o[1]:
+            cb = F.bodies.get((body.crate, o[1]))
+            if cb is not None:
+                out.append(cb)
+        elif o[0] == "const" and isinstance(o[1], tuple) and o[1][0] in ("fn", "closure"):
+            for b in F.bodies.values():
+                if b.def_ == o[1][1] or b.path == o[1][1]:
+                    out.append(b)
+    cl = closure_for_operand(F, body, op)
+    if cl is not None and cl not in out:
+        out.append(cl)
+    return out
+
+
 def fn_item_args(F, cs):
     """bodies of named functions of the workspace passed to this call as function items (`iter.filter_map(helper)`)"""
     out = []
